@@ -172,7 +172,7 @@ Proof.
 Qed.
 Lemma triple_general_sq_raises : forall c s, wd s = W2 \/ wd s = W3 \/ wd s = W4 -> leaf_post c LGeneralSQ s = [].
 Proof. intros c s [P|[P|P]]; unfold leaf_post, leaf_post_raw; rewrite P; reflexivity. Qed.
-Lemma triple_zxzxz : forall c, zx_model c = true -> triple c LZXZXZ (fun s => ms s = MNone)
+Lemma triple_zxzxz : forall c, zx_native c = true -> triple c LZXZXZ (fun s => ms s = MNone)
   (fun s s' => sqn s' = true /\ sem s' = sem s /\ dep s' = D0).
 Proof.
   intros c Hz s s' P H. inv_post H x. unfold rewrites, cond_set in H. rewrite Hz in H.
